@@ -824,6 +824,17 @@ func (state *RuntimeState) getUsernameIfKeymasterSigned(VerifiedChains [][]*x509
 	return "", time.Time{}, nil
 }
 
+// certHasIPRestriction returns true if the certificate carries the RFC 3779
+// address delegation extension used by role requesting certificates.
+func certHasIPRestriction(cert *x509.Certificate) bool {
+	for _, extension := range cert.Extensions {
+		if extension.Id.String() == "1.3.6.1.5.5.7.1.7" {
+			return true
+		}
+	}
+	return false
+}
+
 func (state *RuntimeState) getUsernameIfIPRestricted(VerifiedChains [][]*x509.Certificate, r *http.Request) (string, time.Time, error, error) {
 	clientName := VerifiedChains[0][0].Subject.CommonName
 	userCert := VerifiedChains[0][0]
@@ -893,6 +904,14 @@ func (state *RuntimeState) checkAuth(w http.ResponseWriter, r *http.Request, req
 				authData.AuthType = authData.AuthType | AuthTypeKeymasterX509
 				authData.IssuedAt = notBefore
 				authData.Username = tlsAuthUser
+			}
+			// A certificate counts as a plain keymaster user certificate only
+			// where the endpoint takes those, and never when it is an
+			// IP-restricted (role requesting) certificate: those are valid
+			// only from inside their netblocks, which is checked next.
+			if (requiredAuthType&AuthTypeKeymasterX509) == 0 ||
+				certHasIPRestriction(r.TLS.VerifiedChains[0][0]) {
+				authData = authInfo{}
 			}
 			if (requiredAuthType & AuthTypeIPCertificate) != 0 {
 				clientName, notBefore, userErr, err :=
